@@ -8,6 +8,7 @@ package main
 // host never share a wallet.
 
 import (
+	"errors"
 	"fmt"
 	"net"
 	"sort"
@@ -27,6 +28,7 @@ import (
 type walletNode struct {
 	cm  *chain.Manager
 	ws  *testutil.EphemeralWalletStore
+	hs  *hookStore
 	w   *wallet.SingleAddressWallet
 	key types.PrivateKey
 }
@@ -43,12 +45,27 @@ func newManager(n *consensus.Network, genesis types.Block) *chain.Manager {
 	return chain.NewManager(db, tipstate)
 }
 
+// hookStore is the wallet's store with a fault plan: AddBroadcastedSet (the record the
+// wallet keeps of sets it broadcast, for rebroadcasting) can be made to fail.
+type hookStore struct {
+	*testutil.EphemeralWalletStore
+	failBroadcasted bool
+}
+
+func (s *hookStore) AddBroadcastedSet(set wallet.BroadcastedSet) error {
+	if s.failBroadcasted {
+		return errors.New("wallet store cannot record the broadcast set (fault plan)")
+	}
+	return s.EphemeralWalletStore.AddBroadcastedSet(set)
+}
+
 func newWallet(cm *chain.Manager, key types.PrivateKey) *walletNode {
 	ws := testutil.NewEphemeralWalletStore()
-	w, err := wallet.NewSingleAddressWallet(key, cm, ws, &testutil.MockSyncer{},
+	hs := &hookStore{EphemeralWalletStore: ws}
+	w, err := wallet.NewSingleAddressWallet(key, cm, hs, &testutil.MockSyncer{},
 		wallet.WithDefragThreshold(100000), wallet.WithDebounceInterval(time.Hour))
 	must(err)
-	return &walletNode{cm: cm, ws: ws, w: w, key: key}
+	return &walletNode{cm: cm, ws: ws, hs: hs, w: w, key: key}
 }
 
 // sync applies the chain updates the wallet has not seen yet (synchronously).
